@@ -124,6 +124,7 @@ def reset_trace():
 def real(case):
     functions, _, tools, _, _ = env.mods()
     env.Clock.now = env.NOW0
+    env.Entropy.reset()         # RANDOM ... EVAL: the same bytes in every run
     scripts = list(case['scripts'])
     # the entry point takes bytes or Script objects, in any mix
     how = case.get('as_objects', 0)
@@ -145,6 +146,7 @@ def oracle(case):
     """the contract of the docstring, composed from Tape / Stack / run_tape"""
     functions, _, _, classes, _ = env.mods()
     env.Clock.now = env.NOW0
+    env.Entropy.reset()
     stack = functions.Stack(max_items=case['max_items'],
                             max_item_size=case['max_item_size'])
     cache = {'timestamp': int(env.Clock.now), **dict(case['cache'])}
